@@ -11,7 +11,10 @@
 //	part 4  AES sealing: plaintexts x key lengths 0..40 x wrong keys x malformed sealed strings
 //	part 5  histories: a probe value is marshalled before and after codec calls that FAIL (values with a custom
 //	        claim JSON cannot express, documents that cannot be decoded); its document must stay a function of
-//	        the value alone (see history.go)
+//	        the value alone; a failing encoding that reports success must still hold every claim (see history.go)
+//	part 6  families of values that share objects (one claims map, actor, address, events map, userinfo, the same
+//	        pointer), built through the library's constructors / SetUserInfo / GetUserInfo / AppendClaims, encoded in
+//	        sequence and under forced single preemptions at yield points inside the encoding (see shared.go)
 //
 // A case is a pure function of (seed, part, index); the case number of a replay file is part*1e9+index.
 package main
@@ -81,7 +84,8 @@ func main() {
 		"part 3: generated documents of 1-10 members (documented / hostile forms per field kind, custom members, case variants, duplicate keys, white space); " +
 		"part 4: AES seal/open over arbitrary byte strings, keys of 16/24/32 bytes, every bad key length 0..40, a positional other-key sweep per case (one flipped bit and one replaced byte at every key byte, shared 8/16/24-byte prefixes, shared last 16 bytes, unrelated, cross-length) for crypto.DecryptAES and for op.NewAESCrypto, eight classes of malformed sealed strings, op.NewAESCrypto. " +
 		"part 5: histories of 3-10 codec calls on one goroutine (the first share of them on a single P, the rest on 16 goroutines; a failing call optionally on a goroutine of its own): probe value P marshalled + decoded, then 1-3 failing calls (json.Marshal of a rich value Q with one unencodable custom value: non-finite float / chan, func, complex, bool-keyed map / Marshaler returning an error, broken JSON or panicking / cyclic map; as top-level custom claim, nested in a custom claim, in a nested actor's custom claims, in the logout events; or json.Unmarshal of Q's document with one member of the wrong JSON kind) interleaved with other valid values, P marshalled again after them: every document of a valid value is judged against that value alone, equal values must give equal documents, unexplained members are traced in the ledger of earlier values. " +
-		"distinct = distinct vectors (part 5: scheduling, probe type, custom y/n, fault classes, fault positions, own goroutine, length; part 1: type, collision classes x set/unset, actor depth, decoded|grey-error; part 2: type, position, field, form; part 3: type, twist, first three field kinds, errored; part 4: class, key length, plaintext length bucket) that reached the deciding step")
+		"part 6: families of 2-5 values over harness-owned shared objects (shape: one claims map / one *ActorClaims / a shared actor below own outer actors / one address / one events map / one *UserInfo feeding SetUserInfo of an ID token and an introspection response / the same pointer twice / nothing shared), members built by field assignment, NewIDTokenClaims / NewAccessTokenClaims / NewLogoutTokenClaims, SetUserInfo onto nil / empty / prepopulated claims, GetUserInfo, AppendClaims, NewJWTProfileAssertion + JWTProfileCustomClaim; every custom value is a json.Marshaler of the harness that passes a yield point and writes the model value: all members encoded in sequence, then member A parked at its k-th yield point (inside the encoding of that map / actor level / events) while member B is encoded (or A's document decoded and B encoded) to completion, enumerated over <= 8 points x <= 4 ordered pairs, then all members in sequence again; every call judged alone against the harness-owned model (document, decode, same value = same document), unexplained members traced to the other members. " +
+		"distinct = distinct vectors (part 6: sharing shape, member types, construction paths, classes of park points; part 5: scheduling, probe type, custom y/n, fault classes, fault positions, own goroutine, length; part 1: type, collision classes x set/unset, actor depth, decoded|grey-error; part 2: type, position, field, form; part 3: type, twist, first three field kinds, errored; part 4: class, key length, plaintext length bucket) that reached the deciding step")
 	run.Assume(
 		"JSON-level reference = encoding/json into map[string]any with UseNumber; BCP 47 reference = golang.org/x/text/language; RFC 3339 and number references are the harness's own (math/big, civil-date arithmetic)",
 		"a registered claim is 'set' iff its omitempty encoding is non-empty; claims without omitempty (IntrospectionResponse.active, all of JWTProfileAssertionClaims / JWTTokenRequest) are always set",
@@ -89,7 +93,8 @@ func main() {
 		"a custom key that equals a registered name case-insensitively (Go's struct decoding folds names) counts as colliding: with an unset registered claim everything is grey; with a set registered claim the decoded field must still hold the registered value",
 		"times beyond +-2^53 are drawn in ~1 % of the time fields; coming back float64-rounded, as zero, or as a decode error is grey, a different value (sign flip) is a violation",
 		"decoders are judged on fresh targets only; numbers in custom claims are float64-exact; strings are valid UTF-8; scope items contain no spaces",
-		"part 5: what a call that cannot succeed returns (error, or the custom Marshaler's own panic) is outside the quantifier and only counted; custom keys that are case variants of registered names are left to part 1; scheduling (one P / 16 goroutines) is a dimension of the exploration, never part of a verdict",
+		"part 5: an error (or the custom Marshaler's own panic) from a call that cannot succeed is outside the quantifier and only counted; if such a call reports success the document must hold every set registered claim, every JSON-native custom claim and a member for the unencodable one (lossless or error, never silently less); custom keys that are case variants of registered names are left to part 1; scheduling (one P / 16 goroutines) is a dimension of the exploration, never part of a verdict",
+		"part 6: encoding is a read of the value, so encoding values that share maps / pointers, one after the other or overlapping, is legal use; the expected document comes from the harness's own model of what it put into the shared objects, never from reading them back; what SetUserInfo / GetUserInfo / AppendClaims / the constructors mean is taken from their documentation (copy the userinfo's subject, profile, email, phone, address and claims; keys of the token's own map are disjoint from the userinfo's); forced interleavings only (sched yield points in harness-implemented json.Marshalers), a blocked overlap is inconclusive",
 		"AES: opening under another key is judged only for plaintexts of >= 8 bytes; base64 white space leniency (CR/LF) and opening truncated or tampered sealed strings (CFB has no integrity) are outside the statement and only observed",
 	)
 	if problems := initSpecs(); len(problems) > 0 {
@@ -105,6 +110,7 @@ func main() {
 	nAES := run.N(20_000, 300_000)
 	nHist := run.N(16_000, 300_000)
 	nHistSerial := run.N(3_000, 30_000) // of nHist: run on a single P
+	nShared := run.N(4_000, 120_000)
 
 	if rc := run.ReplayCase(); rc >= 0 {
 		c := &ctx{run: run, t: newTally()}
@@ -120,6 +126,8 @@ func main() {
 			runGeneratedDoc(c, idx)
 		case partAES:
 			runAES(c, idx)
+		case partShared:
+			runShared(c, idx)
 		case partHistory:
 			if sched := historySched(idx, nHistSerial); sched == schedSingleP {
 				old := runtime.GOMAXPROCS(1)
@@ -145,6 +153,7 @@ func main() {
 	run.Mandatory("aes:roundtrip:key16", "aes:roundtrip:key24", "aes:roundtrip:key32", "aes:wrong-key", "aes:wrong-key:crypto.DecryptAES", "aes:wrong-key:op.NewAESCrypto", "aes:bad-key-length", "aes:malformed-input", "aes:op-crypto")
 
 	run.Mandatory(historyMandatory...)
+	run.Mandatory(sharedMandatory...)
 
 	const workers = 16
 	tallies := make([]*tally, workers)
@@ -165,9 +174,10 @@ func main() {
 	timed("generated_documents", func() { ev.Parallel(nGen, workers, func(w, i int) { runGeneratedDoc(&ctx{run, tallies[w]}, i) }) })
 	// part 5 after parts 1-3, so that those see codecs in which nothing has failed yet
 	timed("histories", func() { runHistories(run, tallies, nHist, nHistSerial, workers) })
+	timed("shared", func() { ev.Parallel(nShared, workers, func(w, i int) { runShared(&ctx{run, tallies[w]}, i) }) })
 	timed("aes", func() { ev.Parallel(nAES, workers, func(w, i int) { runAES(&ctx{run, tallies[w]}, i) }) })
 	flush(run, tallies)
-	run.Extra("sizes", map[string]int{"roundtrip_cases": nRT, "matrix_cases": len(matrix), "generated_documents": nGen, "aes_cases": nAES, "histories": nHist, "histories_on_a_single_P": nHistSerial, "catalogue_forms": len(forms)})
+	run.Extra("sizes", map[string]int{"roundtrip_cases": nRT, "matrix_cases": len(matrix), "generated_documents": nGen, "aes_cases": nAES, "histories": nHist, "histories_on_a_single_P": nHistSerial, "shared_families": nShared, "catalogue_forms": len(forms)})
 	histDims := map[string]struct{}{}
 	for _, t := range tallies {
 		for k := range t.distinct {
